@@ -1,6 +1,6 @@
 (* C16 - prelude functions and macros compute what their documentation says.
    Only statements; proofs in Eval/PreludeProofs.v. *)
-From PL Require Import Eval.EvalRules Eval.PreludeState Eval.PreludeProofs Eval.CatchProofs Eval.MacroProofs2 Eval.LengthProofs Eval.RangeProofs Eval.FoldProofs Eval.MapProofs Eval.ZipProofs Eval.LastProofs Eval.InitProofs Eval.FoldrProofs Eval.EnumerateProofs.
+From PL Require Import Eval.EvalRules Eval.PreludeState Eval.PreludeProofs Eval.CatchProofs Eval.MacroProofs2 Eval.LengthProofs Eval.RangeProofs Eval.FoldProofs Eval.MapProofs Eval.ZipProofs Eval.LastProofs Eval.InitProofs Eval.FoldrProofs Eval.EnumerateProofs Eval.SumProofs.
 From Coq Require Import ZArith.
 From Coq Require Import String.
 Local Open Scope string_scope.
@@ -148,3 +148,25 @@ Theorem C16_enumerate : forall xs st d, in_i64 (Z.of_nat (List.length xs)) = tru
                      strip r = strip (vec_to_list (map pair_of (combine xs (indices (List.length xs))))).
 Proof. exact enumerate_runs. Qed.
 Print Assumptions C16_enumerate.
+
+(* + and the multiplication function: for EVERY list of numbers (any length, whatever metadata the literals carry)
+   whose running results stay within the 64-bit range the result is the sum / the product (0 / 1 for no argument);
+   [plus_call_env]: the environment used here is the one a call with these argument values builds *)
+Theorem C16_plus : forall vals zs st d, Forall2 (fun v z => getv v = VNum z) vals zs -> in_range_from Z.add 0 zs = true ->
+  has_prelude st -> (d + 4 <= MAXD)%N ->
+  exists fuel st' r, eval_loop fuel st pl_body (pl_env (vec_to_list vals)) pm d = (st', ROk r) /\ has_prelude st' /\
+                     getv r = VNum (fold_left Z.add zs 0%Z).
+Proof. exact plus_runs. Qed.
+Print Assumptions C16_plus.
+
+Theorem C16_times : forall vals zs st d, Forall2 (fun v z => getv v = VNum z) vals zs -> in_range_from Z.mul 1 zs = true ->
+  has_prelude st -> (d + 4 <= MAXD)%N ->
+  exists fuel st' r, eval_loop fuel st tm_body (tm_env (vec_to_list vals)) pm d = (st', ROk r) /\ has_prelude st' /\
+                     getv r = VNum (fold_left Z.mul zs 1%Z).
+Proof. exact times_runs. Qed.
+Print Assumptions C16_times.
+
+Theorem C16_plus_call_env : forall src vals i n,
+  (let '(ps, _, e, _) := plus_parts in pair_params src ps true vals e i n) = inl (pl_env (vec_to_list vals)).
+Proof. exact plus_call_env. Qed.
+Print Assumptions C16_plus_call_env.
